@@ -124,24 +124,53 @@ def quote_guards(prog, rep):
     n = 0
     for cname in ("QFunction", "QDict", "QList"):
         fi = prog.func(f"{cname}.check")
-        loops = [l for l in walk_own(fi.node) if isinstance(l, ast.For) and any(isinstance(x, (ast.AugAssign, ast.Assign)) and norm(x.targets[0] if isinstance(x, ast.Assign) else x.target) == "to_consume" for x in ast.walk(l))]
+        # roles, under whatever names: the depth counter is stepped by one in the loop and compared with 0; a quote flag is
+        # toggled (`q = not q`) in the branch that tests the loop character against its quote; the previous character is
+        # the variable assigned the loop character
+        DV = SQ_ = DQ_ = PV = None
+        for l in [x for x in walk_own(fi.node) if isinstance(x, ast.For)]:
+            chv = norm(l.target) if isinstance(l.target, ast.Name) else (norm(l.target.elts[-1]) if isinstance(l.target, ast.Tuple) else None)
+            for x in ast.walk(l):
+                if isinstance(x, ast.AugAssign) and isinstance(x.value, ast.Constant) and x.value.value == 1 and isinstance(x.target, ast.Name):
+                    cand = x.target.id
+                elif isinstance(x, ast.Assign) and isinstance(x.targets[0], ast.Name) and isinstance(x.value, ast.BinOp) and isinstance(x.value.right, ast.Constant) and x.value.right.value == 1 and norm(x.value.left) == x.targets[0].id:
+                    cand = x.targets[0].id
+                else:
+                    cand = None
+                if cand and any(isinstance(c, ast.Compare) and norm(c.left) == cand and isinstance(c.comparators[0], ast.Constant) and c.comparators[0].value == 0 for c in ast.walk(fi.node)):
+                    # ... stepped both up and down
+                    ups = any((isinstance(y, ast.AugAssign) and isinstance(y.op, ast.Add) and norm(y.target) == cand) or (isinstance(y, ast.Assign) and isinstance(y.value, ast.BinOp) and isinstance(y.value.op, ast.Add) and norm(y.targets[0]) == cand) for y in ast.walk(l))
+                    downs = any((isinstance(y, ast.AugAssign) and isinstance(y.op, ast.Sub) and norm(y.target) == cand) or (isinstance(y, ast.Assign) and isinstance(y.value, ast.BinOp) and isinstance(y.value.op, ast.Sub) and norm(y.targets[0]) == cand) for y in ast.walk(l))
+                    if ups and downs:
+                        DV = DV or cand
+                if isinstance(x, ast.Assign) and isinstance(x.targets[0], ast.Name) and norm(x.value) == f"not {x.targets[0].id}":
+                    br = parent(x)
+                    t_ = norm(br.test) if isinstance(br, ast.If) else ""
+                    if chv and f"{chv} == \"'\"" in t_:
+                        SQ_ = x.targets[0].id
+                    elif chv and f"{chv} == '\"'" in t_:
+                        DQ_ = x.targets[0].id
+                if isinstance(x, ast.Assign) and isinstance(x.targets[0], ast.Name) and chv and norm(x.value) == chv and x in l.body:
+                    PV = x.targets[0].id
+        DV, SQ_, DQ_, PV = DV or "to_consume", SQ_ or "single_quote", DQ_ or "double_quote", PV or "prev_char"
+        loops = [l for l in walk_own(fi.node) if isinstance(l, ast.For) and any(isinstance(x, (ast.AugAssign, ast.Assign)) and norm(x.targets[0] if isinstance(x, ast.Assign) else x.target) == DV for x in ast.walk(l))]
         if len(loops) != 1:
             rep.undecided("QUOTES", fi.short, "bracket loop", f"{len(loops)} loops touch the depth counter", fi.loc())
             continue
         lp = loops[0]
         sums, _ = summarize(fi=None, body=lp.body, env=Env(fi, None, inline_locals=False))
-        D = Form.atom("to_consume")
+        D = Form.atom(DV)
         n_upd = n_tog = 0
         for p in sums:
-            d = p.state.vals.get("to_consume", D)
+            d = p.state.vals.get(DV, D)
             if d != D:
                 n_upd += 1
-                ok = ("single_quote", False) in p.opaque and ("double_quote", False) in p.opaque
+                ok = (SQ_, False) in p.opaque and (DQ_, False) in p.opaque
                 rep.check(ok, "QUOTES", fi.short, f"depth {'+' if (d - D).const > 0 else '-'}1", "only outside quotes", f"the bracket depth changes on a path that is not known to be outside both kinds of quotes (path assumes {sorted(f'{chr(43) if pol else chr(45)}{t}' for t, pol in p.opaque)}): a bracket inside a string literal ends the token early", fi.loc(lp))
-            for q, other, ch in (("single_quote", "double_quote", "\"'\""), ("double_quote", "single_quote", "'\"'")):
+            for q, other, ch in ((SQ_, DQ_, "\"'\""), (DQ_, SQ_, "'\"'")):
                 if q in p.state.vals and p.state.vals[q] != Form.atom(q):
                     n_tog += 1
-                    esc = ("prev_char != '\\\\'", True) in p.opaque
+                    esc = (f"{PV} != '\\\\'", True) in p.opaque
                     oth = (other, False) in p.opaque
                     rep.check(esc and oth, "QUOTES", fi.short, f"toggle {q}", "guarded by the escape test and by not being inside the other quote", f"the {q} flag toggles on a path without {'the escape test' if not esc else ''}{' and ' if not esc and not oth else ''}{'`not ' + other + '`' if not oth else ''}: an escaped quote or a quote character inside the other kind of string flips the state", fi.loc(lp))
         n += n_upd
@@ -165,6 +194,14 @@ def loops_rule(prog, rep):
     rep.rule("LOOPS", "QFunction.parse / QList.parse / QDict.parse: every non-raising path through an iteration of the argument / entry loop appends or sets exactly one parsed value; QFunction.interpret evaluates self.args in order after the two injected arguments and calls functions[self.name](*call_args); QList / QDict.interpret map every child")
     for cname, sink in (("QFunction", "args.append"), ("QList", "ls.append"), ("QDict", "d[key]")):
         fi = prog.func(f"{cname}.parse")
+        # the container is whatever the method hands to the token's constructor, under any name
+        rets_ = [r for r in walk_own(fi.node) if isinstance(r, ast.Return) and isinstance(r.value, ast.Call) and norm(r.value.func) == cname and r.value.args and isinstance(r.value.args[-1], ast.Name)]
+        cont = rets_[0].value.args[-1].id if len(rets_) == 1 else sink.split(".")[0].split("[")[0]
+        if cname == "QDict":
+            subs_ = [x for x in walk_own(fi.node) if isinstance(x, ast.Assign) and isinstance(x.targets[0], ast.Subscript) and norm(x.targets[0].value) == cont]
+            sink = norm(subs_[0].targets[0]) if len(subs_) == 1 else f"{cont}[key]"
+        else:
+            sink = f"{cont}.append"
         loops = [l for l in walk_own(fi.node) if isinstance(l, ast.While)]
         if len(loops) != 1:
             rep.undecided("LOOPS", fi.short, "entry loop", f"{len(loops)} while loops", fi.loc())
@@ -230,8 +267,9 @@ def loops_rule(prog, rep):
                 sub = [x for x in ast.walk(lp) if isinstance(x, ast.Assign) and isinstance(x.targets[0], ast.Subscript) and norm(x.targets[0].value) == "d"]
                 ok = len(scans) == 2 and bool(keydefs) and bool(sub) and norm(sub[0].targets[0].slice) == norm(keydefs[0].targets[0])
         rets = [r for r in walk_own(fi.node) if isinstance(r, ast.Return)]
-        want = {"QFunction": "QFunction(name, args)", "QList": "QList(ls)", "QDict": "QDict(d)"}[cname]
-        rep.check(len(rets) == 1 and norm(rets[0].value) == want, "LOOPS", fi.short, "result", want, f"parse returns `{norm(rets[0].value) if rets else ''}`", fi.loc())
+        want = {"QFunction": f"QFunction(name, {cont})", "QList": f"QList({cont})", "QDict": f"QDict({cont})"}[cname]
+        okw = len(rets) == 1 and (norm(rets[0].value) == want or (cname == "QFunction" and isinstance(rets[0].value, ast.Call) and norm(rets[0].value.func) == "QFunction" and len(rets[0].value.args) == 2 and norm(rets[0].value.args[1]) == cont))
+        rep.check(okw, "LOOPS", fi.short, "result", want, f"parse returns `{norm(rets[0].value) if rets else ''}`", fi.loc())
     fi = prog.func("QFunction.interpret")
     calls = [c for c in walk_with_nested_exprs(fi.node) if isinstance(c, ast.Call) and prog.is_registry_value(c.func, fi) and "self.name" in norm(c.func if not isinstance(c.func, ast.Name) else single_def(fi, c.func.id))]
     ok = False
@@ -408,6 +446,7 @@ def _is_annotation_listing(e):
 def _wrapper_fold(g, h):
     """evaluate the registry wrapper's argument shuffling for the four (datastore annotated?, namespace annotated?) cases"""
     a = g.node.args
+    WF = h.params[0] if h.params else "f"  # the wrapped function, under whatever name the decorator's parameter has
     if [x.arg for x in a.args] != ["datastore", "namespace"] or a.vararg is None or a.vararg.arg != "args":
         return f"wrapper signature is {norm(a)}"
     out = {}
@@ -482,10 +521,10 @@ def _wrapper_fold(g, h):
                             return None
                     elif isinstance(st, ast.Return):
                         v = st.value
-                        if isinstance(v, ast.Call) and norm(v.func) == "f" and len(v.args) == 1 and isinstance(v.args[0], ast.Starred) and norm(v.args[0].value) == "args" and len(v.keywords) == 1 and v.keywords[0].arg is None and norm(v.keywords[0].value) == "kwargs":
+                        if isinstance(v, ast.Call) and norm(v.func) == WF and len(v.args) == 1 and isinstance(v.args[0], ast.Starred) and norm(v.args[0].value) == "args" and len(v.keywords) == 1 and v.keywords[0].arg is None and norm(v.keywords[0].value) == "kwargs":
                             result = list(cur)
                             return None
-                        if isinstance(v, ast.Call) and norm(v.func) == "f" and all(k.arg is None for k in v.keywords):
+                        if isinstance(v, ast.Call) and norm(v.func) == WF and all(k.arg is None for k in v.keywords):
                             r = ev_tuple(ast.Tuple(elts=v.args, ctx=ast.Load()), cur)
                             if r is not None:
                                 result = r
@@ -506,16 +545,17 @@ def _wrapper_fold(g, h):
 
 def _registration_name(h):
     """functions[<name of f without the q2_ prefix>] = g"""
+    WFN = h.params[0] if h.params else "f"
     P = "q2_"
     var = None
     for n in walk_own(h.node):
-        if isinstance(n, ast.Assign) and len(n.targets) == 1 and isinstance(n.targets[0], ast.Name) and norm(n.value) == "f.__name__":
+        if isinstance(n, ast.Assign) and len(n.targets) == 1 and isinstance(n.targets[0], ast.Name) and norm(n.value) == f"{WFN}.__name__":
             var = n.targets[0].id
     if var is None:
         return False
     stripped = False
     for n in walk_own(h.node):
-        if isinstance(n, ast.Assign) and len(n.targets) == 1 and norm(n.targets[0]) == var and norm(n.value) != "f.__name__":
+        if isinstance(n, ast.Assign) and len(n.targets) == 1 and norm(n.targets[0]) == var and norm(n.value) != f"{WFN}.__name__":
             v = n.value
             par = parent(n)
             if isinstance(v, ast.Call) and norm(v.func) == f"{var}.removeprefix" and len(v.args) == 1 and isinstance(v.args[0], ast.Constant) and v.args[0].value == P:
@@ -641,7 +681,8 @@ def registry_rule(prog, rep):
     rep.check(ok, "REGISTRY", h.short, "registration name", "function name without the q2_ prefix", "functions are not registered under their name without the q2_ prefix", h.loc())
     tg = prog.func("q2_typecheck.g")
     rets = [r for r in walk_own(tg.node) if isinstance(r, ast.Return)]
-    rep.check(len(rets) == 1 and norm(rets[0].value) == "f(*args, **kwargs)", "REGISTRY", tg.short, "forwarding", "f(*args, **kwargs)", "the typecheck wrapper does not forward its arguments unchanged", tg.loc())
+    tf = tg.outer.params[0] if tg.outer is not None and tg.outer.params else "f"
+    rep.check(len(rets) == 1 and norm(rets[0].value) == f"{tf}(*args, **kwargs)", "REGISTRY", tg.short, "forwarding", "f(*args, **kwargs)", "the typecheck wrapper does not forward its arguments unchanged", tg.loc())
     # token classes
     mi = prog.module("aw_query.query2")
     qt = mi.consts.get("qtypes")
